@@ -2012,6 +2012,14 @@ class TestResultDecorator:
     def shouldStop(self):
         return self.decorated.shouldStop
 
+    @property
+    def failfast(self):
+        return self.decorated.failfast
+
+    @failfast.setter
+    def failfast(self, value):
+        self.decorated.failfast = value
+
     def stop(self):
         return self.decorated.stop()
 
